@@ -153,6 +153,7 @@ func (s *Session) RunCheck(ps *PropSpec, opts CheckOpts) int {
 	s.DischargeAll(results, ps.ID)
 	s.RetryWithFindings(results, ps.ID)
 	sums := Summarize(results)
+	covers := s.VacuityCheck(results, ps.ID)
 
 	type viol struct {
 		Name   string
@@ -316,6 +317,23 @@ func (s *Session) RunCheck(ps *PropSpec, opts CheckOpts) int {
 		"explanation":         ps.Explanation,
 		"contract_files":      s.ContractFiles,
 		"per_obligation_timeout_s": s.TimeoutS,
+	}
+	nReach, nMaybe := 0, 0
+	var vacuous []string
+	for _, c := range covers {
+		switch c.Status {
+		case "reachable":
+			nReach++
+		case "possibly-reachable":
+			nMaybe++
+		default:
+			vacuous = append(vacuous, shortObl(c.Func)+"#ensures:"+c.Label)
+		}
+	}
+	cov["vacuity_guard"] = map[string]interface{}{"clauses": len(covers), "antecedent_reachable_sat": nReach, "antecedent_not_refuted_unknown": nMaybe, "vacuous": vacuous,
+		"rule": "for every ensures clause A ==> B some return path must be consistent with A (query path && A not unsat)"}
+	for _, v := range vacuous {
+		engineProblems = append(engineProblems, "vacuous clause (antecedent unreachable on every path): "+v)
 	}
 	var knownLines []string
 	for name, f := range known {
